@@ -33,6 +33,10 @@ pub struct Shared {
     heap: Option<Vec<u64>>,
 }
 
+// The mapping is only written through atomics / before-after a fork.
+unsafe impl Send for Shared {}
+unsafe impl Sync for Shared {}
+
 #[derive(Clone, Debug, PartialEq)]
 pub enum ChildEnd {
     /// Child wrote its result and exited normally.
@@ -121,7 +125,7 @@ impl Shared {
 
     /// Run `f` in a forked child. `f` returns the result string handed back to
     /// the parent. The calling process must be single-threaded.
-    pub fn run(&self, timeout_s: u32, f: impl FnOnce() -> String) -> ChildRun {
+    pub fn run(&self, timeout_s: u32, f: impl FnOnce() -> String + Send) -> ChildRun {
         assert!(self.mapped, "child runs are not available in this flavour");
         self.reset();
         let mut fds = [0i32; 2];
@@ -141,7 +145,16 @@ impl Shared {
                 }
                 libc::alarm(timeout_s);
             }
-            let s = f();
+            // Give the workload the stack of a normal main thread (8 MiB),
+            // whatever the stack of the forking thread is.
+            let s = std::thread::scope(|sc| {
+                std::thread::Builder::new()
+                    .stack_size(8 << 20)
+                    .spawn_scoped(sc, f)
+                    .expect("spawn in child")
+                    .join()
+                    .unwrap_or_else(|_| "\"child-thread-panicked\"".to_string())
+            });
             self.write_result(&s);
             0
         });
@@ -214,7 +227,7 @@ pub fn crash_class(run: &ChildRun) -> String {
             }
         }
         ChildEnd::Signal(s) => {
-            if run.stderr.contains("overflowed its stack") {
+            if run.stderr.contains("overflowed its stack") || run.stderr.contains("stack-overflow") {
                 "stack_overflow".to_string()
             } else if run.stderr.contains("memory allocation of") {
                 "abort:alloc".to_string()
